@@ -34,7 +34,7 @@ def cases(tier, seed):
         if tier == "quick" and (not spec["quick"] or name in _SKIP_QUICK):
             continue
         out.append(dict(name=name, template=name))
-    heavy = ["overdetermined-pos-vs-2coords", "overdetermined-pos-vs-coords-pinned", "overdetermined-pos-vs-coords", "gridcoord-gridmargin", "realcoords-samesize",
+    heavy = ["multiaxis-staged", "overdetermined-pos-vs-2coords", "overdetermined-pos-vs-coords-pinned", "overdetermined-pos-vs-coords", "gridcoord-gridmargin", "realcoords-samesize",
              "extend-grid-offset", "overdetermined-ext-pinned"]
     out.sort(key=lambda d: heavy.index(d["name"]) if d["name"] in heavy else len(heavy))  # longest cases first (pool scheduling)
     return out
